@@ -121,6 +121,7 @@ def judge_cases(rep, pid, cases, compare=D.strip_far, label="", mmcache=None, ke
             continue
         if len(devsets) > 1 and common.canon(compare(real)) == common.canon(compare(r["out"][1])):
             known.append(c)
+            info[c["id"]]["verdict"] = "known"
             continue
         rep.violation(dict(describe(c), raw=dict(g=c["g"], cfg=c["cfg"], s=c["s"]), observed=compare(real),
                            expected=compare(exp)),
@@ -235,4 +236,61 @@ def judge_universe(rep, pid, family, depth=1, compare=D.strip_far, sample=None, 
                           f"{family}: grammar {G.render_grammar(m['g']).strip()!r} input {G.text(m['s'])!r}: textX gives "
                           f"{common.canon(compare(m['real']))[:260]} but Peg.tla prescribes {common.canon(compare(m['exp']))[:260]}")
     rep.bounds[f"universe_{family}_d{depth}"] = dict(grammars=len(uni), inputs=len(inputs), compared=n)
+    return n
+
+
+def judge_universe_memo(rep, pid, family, depth):
+    """C19: every case of the universe with memoization on and off; both must equal the module's outcome
+    (accept, model and error position), hence each other."""
+    uni, inputs = universe(rep, family, depth)
+    mism = []
+    n = 0
+    for u in uni:
+        built = {}
+        for memo in (True, False):
+            try:
+                built[memo] = D.Built(u["g"], dict(u["cfg"], memo=memo))
+            except Exception as e:
+                rep.violation(dict(grammar=G.render_grammar(u["g"]), error=str(e)), f"grammar refused: {e}")
+        if len(built) < 2:
+            continue
+        for i, s in enumerate(inputs):
+            exp = u["outs"][i]
+            for memo in (True, False):
+                real = real_outcome(built[memo], G.text(s))
+                n += 1
+                if common.canon(real) == common.canon(exp):
+                    rep.passed(None)
+                    if nontrivial(exp):
+                        rep.nontrivial.add(common.digest([u["gi"], family, depth, s, memo]))
+                        if len(rep.samples) < 3:
+                            rep.samples.append(dict(grammar=built[memo].text, input=G.text(s), memoization=memo, outcome=exp))
+                else:
+                    mism.append(dict(id=len(mism), g=u["g"], cfg=dict(u["cfg"], memo=memo), s=s, real=real, exp=exp))
+    od = open_devs(pid)
+    res = {}
+    if mism and od:
+        cases = [dict(id=m["id"], g=m["g"], cfg=m["cfg"], s=m["s"],
+                      devs=[[d] for _, d in od] + [sorted({d for _, d in od})]) for m in mism]
+        res, st = tlc.oracle("PegOracle", cases)
+        rep.add_oracle("PegOracle[deviations]", st)
+    for m in mism:
+        fid = None
+        if od:
+            outs = res[m["id"]]["out"]
+            for j, (f, _d) in enumerate(od):
+                if common.canon(outs[j]) == common.canon(m["real"]):
+                    fid = f
+                    break
+            if fid is None and common.canon(outs[-1]) == common.canon(m["real"]):
+                fid = od[0][0]
+        c = dict(g=m["g"], cfg=m["cfg"], s=m["s"])
+        if fid:
+            rep.known_finding(fid, describe(c))
+        else:
+            rep.violation(dict(describe(c), raw=c, observed=m["real"], expected=m["exp"]),
+                          f"{family} memo={m['cfg']['memo']}: grammar {G.render_grammar(m['g']).strip()!r} input "
+                          f"{G.text(m['s'])!r}: textX gives {common.canon(m['real'])[:240]} but Peg.tla prescribes "
+                          f"{common.canon(m['exp'])[:240]}")
+    rep.bounds[f"universe_{family}_d{depth}_memo"] = dict(grammars=len(uni), inputs=len(inputs), compared=n)
     return n
